@@ -1081,8 +1081,10 @@ class ChunkParser:
                 context = f"<{context}>"
                 self.parent.w_flags.append(flag)
                 self.parent.w_flag_lines.append((flag, context))
-                # Start next search from the end of this context string.
-                start_pos = j
+                # Start next search after the last match included in this
+                # context string. (Not from the end of the context string,
+                # which may fall in the middle of the next trigger word.)
+                start_pos = final_end_mo.end()
 
 
 def rebuild_sec_within(
